@@ -90,8 +90,11 @@ InnerMsg(kind, n, tag) ==
     [] kind = "bundleadd" -> BundleAddEl(n, FlowModEl(Nm(n, 7), 0, <<>>, <<>>, tag + 1), tag + 2)
 NextW == \E kind \in SimpleKinds \cup {"flowmod", "groupmod", "pktout", "mpflow", "tlvmod", "bundlectrl", "bundleadd"}, tag \in Tags :
             LET inner == InnerMsg(kind, "in", tag) IN
-            /\ c' = <<kind, tag>>
-            /\ Emit("W", BundleAddEl("m", inner, tag), <<inner>>)
+            \/ /\ c' = <<kind, tag>>
+               /\ Emit("W", BundleAddEl("m", inner, tag), <<inner>>)
+            \/ \E np \in 1..2 :            \* with experimenter properties: the bundled message is then padded to 8 bytes
+                 /\ c' = <<kind, np, tag>>
+                 /\ Emit("W", BundleAddPropsEl("m", inner, np, tag), <<inner>>)
 NextO == \E p1 \in BOOLEAN, p2 \in BOOLEAN, p3 \in BOOLEAN, n \in 1..3, kind \in {"apply", "write"}, tag \in Tags :
             LET ps == <<p1, p2, p3>>
                 adds == [i \in 1..n |-> <<LeafAct("a" \o ToString(i), (<<"output", "note3", "regload", "setfield">>)[1 + ((i + tag) % 4)], tag + 11 * i), ps[i]>>] IN
